@@ -34,6 +34,8 @@ def run(ctx):
     # keys are scoped by contract: the duplicate set used while computing mutations is fresh for every solution, so
     # whether a computed key is accepted cannot depend on which solutions were processed before (C16 R4)
     from . import C16
+    ctx.rule("R9", "sorting, duplicate detection and map lookups use the derived structural equality / order / hash of the value types")
+    H.structural_traits(ctx, "R9")
     ctx.rule("R8", "computed-mutation duplicate detection does not carry keys from one solution to the next (C16 R4)")
     C16.run(_Only(ctx, "R4", "R8"))
     f = prog.fn("essential_hash::solution_set_addr::from_set")
